@@ -184,6 +184,16 @@ def Graph.run (g : Graph) : List Ev → Except Err Graph
     | .ok g1 => g1.run es
     | .error err => .error err
 
+/-- the ticks `[lo, hi]` a graph operation adds to range `i`; the target is judged in a later graph `g`
+    (an entry of `ranges` never changes, `Graph.Le`) -/
+def Ev.Hits (g : Graph) (i : Nat) (lo hi : Int) : Ev → Prop
+  | .mark t a b => g.lookup t = some i ∧ max a 0 ≤ a + b ∧ lo = max a 0 ∧ hi = a + b
+  | .rolling t _ a => g.lookup t = some i ∧ max a 0 ≤ a + 1 ∧ lo = max a 0 ∧ hi = a + 1
+  | .markVars len => (∃ t : Tensor, (t, i) ∈ g.ranges ∧ t.isVariable = true) ∧ 0 ≤ len ∧ lo = 0 ∧ hi = len
+  | .fuse _ _ => False
+  | .fail => False
+
+
 /-! ## `_get_ifm_to_fuse` -/
 
 /-- what `_get_ifm_to_fuse` reads from `sched_op` / `sched_op.parent_op` -/
